@@ -291,6 +291,18 @@ func c15Templates(r *rt.Rec, part, parts int, bounded literal.Builder) {
 			}
 		}
 	}
+	// indentation: k bytes of leading (and trailing) whitespace before every
+	// prefix of a printed triple, a predicate, a literal and a node
+	for _, full := range []string{"/u<a>\t\"p\"@[]\t/u<b>", "/u<a>\t\"p\"@[2016-01-02T03:04:05Z]\t\"5\"^^type:int64", `"p"@[2016-01-02T03:04:05Z]`, `"abc"^^type:text`, "/u<a>"} {
+		for _, k := range []int{1, 2, 3, 7, 40} {
+			for _, ws := range []string{" ", "\t"} {
+				ind := strings.Repeat(ws, k)
+				for cut := 0; cut <= len(full); cut++ {
+					all = append(all, ind+full[:cut], ind+full[:cut]+ind)
+				}
+			}
+		}
+	}
 	nt := 0
 	for i, s := range all {
 		if i%parts != part {
@@ -407,6 +419,12 @@ func c15Reader(r *rt.Rec, rng *rand.Rand, n int) {
 	for _, l := range []int{4000, 4096, 5000, 66000} {
 		long = append(long, "/u<a>\t\"long\"@[]\t\""+strings.Repeat("x", l)+"\"^^type:text", "/u<"+strings.Repeat("n", l)+">\t\"p\"@[]\t/u<b>")
 	}
+	// lines whose byte length is exactly a buffer size (with and without a final
+	// newline they must load)
+	for _, l := range []int{4096, 8192, 65536} {
+		pre, post := "/u<a>\t\"long\"@[]\t\"", "\"^^type:text"
+		long = append(long, pre+strings.Repeat("y", l-len(pre)-len(post))+post)
+	}
 	short := valid
 	for k := 0; k < n; k++ {
 		valid = short
@@ -416,6 +434,9 @@ func c15Reader(r *rt.Rec, rng *rand.Rand, n int) {
 		nl := 1 + rng.Intn(7)
 		if k%40 == 39 {
 			nl = 200 + rng.Intn(300) // a file much larger than any buffer
+		}
+		if k%160 == 159 {
+			nl = 1024 + rng.Intn(80) // more lines than any plausible batch size
 		}
 		badPos := rng.Intn(nl + 1) // == nl: no malformed line
 		eol := "\n"
